@@ -156,6 +156,10 @@ def worker(job):
             if backend != 'dict':
                 with guarded(part, f'C04 delivery {backend}', dict(backend=backend, scenario='delivery', seed=seed * 100 + k)):
                     asyncio.run(delivery_history(part, backend, random.Random(seed * 100 + k + 7)))
+    for k in range(max(2, ncases // 6)):
+        layout = ['++', 'fs'][k % 2]
+        with guarded(part, f'C04 lock contention {layout}', dict(backend='maildir', layout=layout, scenario='lock-contention', seed=seed * 100 + k)):
+            asyncio.run(lock_contention(part, layout, random.Random(seed * 100 + k + 29)))
     for k in range(max(1, ncases // 8)):
         for backend in ('dict', 'maildir'):
             with guarded(part, f'C04 multiappend {backend}', dict(backend=backend, scenario='multiappend', seed=seed * 100 + k)):
@@ -456,6 +460,98 @@ CORPUS = [
 ]
 
 
+async def lock_contention(part, layout, r):
+    """maildir: the UID list's lock file is held by somebody else (another process) for a moment while several connections are given APPEND/COPY: when it is let go,
+    every message still gets a UID of its own and is found under it"""
+    import os
+    from pymap.imap import IMAPServer
+    from pymap.backend.maildir.uidlist import UidList
+    from .common import wire, backends
+    base = backends.scratch_dir('pymap-verif-c04-')
+    try:
+        config, login = await backends.make_maildir(base, layout=layout, users=[('u', 'p', ())], bad_command_limit=None)
+        srv = IMAPServer(login, config)
+        nconn = r.choice([2, 2, 3])
+        conns = []
+        for _ in range(nconn):
+            c = wire.Client(srv)
+            await c.start()
+            await c.send(b'a LOGIN u p\r\n')
+            conns.append(c)
+        serial = 0
+        given = {}       # mark -> uid
+        log = []
+        case = dict(scenario='lock-contention', backend='maildir', layout=layout, seed=None, log=log)
+
+        def msg():
+            nonlocal serial
+            serial += 1
+            return b'mark-%04d' % serial, b'Subject: mark-%04d\r\n\r\nx\r\n' % serial
+        for c in conns:       # ordinary use first
+            mark, m_ = msg()
+            raw = await c.send(b'a APPEND INBOX {%d+}\r\n' % len(m_) + m_ + b'\r\n')
+            mt = re.search(rb'APPENDUID (\d+) (\d+)', raw)
+            if mt:
+                given[mark] = int(mt.group(2))
+        lock_path = UidList.get_lock(os.path.join(base, 'u'))
+        for round_ in range(r.randint(2, 4)):
+            if r.random() < 0.6:
+                # a delivery by somebody else: a file in new/ that has no UID yet
+                import mailbox as stdlib_mailbox
+                mark, m_ = msg()
+                stdlib_mailbox.Maildir(os.path.join(base, 'u'), create=False).add(stdlib_mailbox.MaildirMessage(m_.replace(b'\r\n', b'\n')))
+                log.append(f'delivery {mark.decode()}')
+            try:
+                with open(lock_path, 'x'):
+                    pass
+            except FileExistsError:
+                part.stat('lock-contention:lock-busy')
+                continue
+            hold = r.choice([0.01, 0.03, 0.06])
+            asyncio.get_running_loop().call_later(hold, lambda: os.path.exists(lock_path) and os.unlink(lock_path))
+            sent = []
+            for c in r.sample(conns, r.randint(2, nconn)):
+                mark, m_ = msg()
+                c.feed(b'a APPEND INBOX {%d+}\r\n' % len(m_) + m_ + b'\r\n')
+                sent.append((c, mark))
+                log.append(f'append {mark.decode()} while the lock is held ({hold}s)')
+            await asyncio.sleep(hold + 0.02)
+            part.stat('lock-contention:round')
+            for c, mark in sent:
+                raw = await c.settle(wall=8.0)
+                mt = re.search(rb'APPENDUID (\d+) (\d+)', raw)
+                if mt:
+                    given[mark] = int(mt.group(2))
+                elif b'a NO' in raw or b'a BAD' in raw:
+                    part.stat('lock-contention:refused')
+                else:
+                    part.stat('lock-contention:no-answer')
+        part.case(key=f'lock-contention:{layout}:{nconn}', nontrivial=True, sample=dict(case, log=log[:8]))
+        by_uid = {}
+        for mark, uid in given.items():
+            by_uid.setdefault(uid, []).append(mark.decode())
+        twice = {u: ms for u, ms in by_uid.items() if len(ms) > 1}
+        if twice:
+            part.violation('monitor', f'maildir: APPENDUID reported the same UID for different messages while the UID list\'s lock was contended: {twice}', case, signature='uid-reused')
+            return
+        fresh = wire.Client(srv)
+        await fresh.start()
+        await fresh.send(b'a LOGIN u p\r\n')
+        await fresh.send(b'a EXAMINE INBOX\r\n')
+        raw = await fresh.send(b'a UID FETCH 1:* (UID BODY.PEEK[HEADER.FIELDS (SUBJECT)])\r\n')
+        found = {int(u): mk for u, mk in re.findall(rb'UID (\d+) BODY\[HEADER\.FIELDS \(SUBJECT\)\] \{\d+\}\r\nSubject: (mark-\d+)', raw)}
+        for mark, uid in given.items():
+            if found.get(uid) != mark:
+                part.violation('monitor', f'maildir: {mark.decode()} was reported as UID {uid}, but UID {uid} is {found.get(uid)!r} after the UID list\'s lock was contended '
+                               f'(UIDs now: {sorted(found.items())})', case, signature='uid-names-another')
+                return
+        await fresh.eof()
+        for c in conns:
+            await c.eof()
+    finally:
+        backends.rmtree(base)
+
+
 def run(ctx):
     ctx.rep.rule = RULE
     ctx.rep.assumptions = ['process restart / crash points of the maildir UID list are C15\'s subject (theorem C15_recover is shared)',
@@ -471,6 +567,11 @@ def replay(case):
     case = case.get('case', case)
     if case.get('scenario') == 'rename':
         asyncio.run(rename_history(part, case['backend'], random.Random(case.get('seed', 1))))
+    elif case.get('scenario') == 'lock-contention':
+        for k in range(30):       # the recorded seed first, then a sweep of schedules of the same family
+            asyncio.run(lock_contention(part, case.get('layout', '++'), random.Random((case.get('seed') or 0) + 29 + k)))
+            if part.result()['violations']:
+                break
     elif case.get('scenario') == 'delivery':
         asyncio.run(delivery_history(part, case['backend'], random.Random(case.get('seed', 1))))
     else:
